@@ -156,6 +156,7 @@ func c10run(c *C, id string, cl c10class, flags []string, pre c10pre, plan map[i
 		}
 	}
 	c.Count("runs")
+	c.Count("evaluations_override")
 	if r.Panic != "" {
 		c.Violation("panic:"+cl.id, "tool panicked ("+id+"):\n"+r.Panic, fm, extra)
 		return points, 2
